@@ -488,3 +488,7 @@ def replay(run, data) -> None:
         shutil.rmtree(tmp, ignore_errors=True)
     run.case('pad', True)
     run.case('pad2', True)
+
+
+# (kept at the end of the file so that the text above stays the description the check was first built to)
+RULE += ' ' + 'Later additions: after the cycle, the same object touches two further views and is saved in place (save() without a file name) - the parsed content must still be the original; entity keys that need escaping.'
